@@ -120,12 +120,14 @@ def musig : List String → Option String
   | _ => none
 
 /-- `point_from_pub_key` on a tuple: on the curve and not the point at infinity -/
-def validPoint (c : EC.Curve) (P : EC.Point) : Bool :=
-  P.2 != 0 && (EC.isOnCurve c.toCurveGroup P == some true)
+def xInRange (c : EC.Curve) (P : EC.Point) : Bool := decide (0 ≤ P.1) && decide (P.1 < c.p)
 
-/-- `require_on_curve` (infinity allowed) -/
+def validPoint (c : EC.Curve) (P : EC.Point) : Bool :=
+  P.2 != 0 && xInRange c P && (EC.isOnCurve c.toCurveGroup P == some true)
+
+/-- `require_on_curve` (infinity allowed; `is_on_curve` refuses an x outside 0..p-1) -/
 def onCurve (c : EC.Curve) (P : EC.Point) : Bool :=
-  EC.isOnCurve c.toCurveGroup P == some true
+  P.2 == 0 || (xInRange c P && (EC.isOnCurve c.toCurveGroup P == some true))
 
 def hmac256 : Bytes → Bytes → Bytes := hmacSha256
 
